@@ -302,13 +302,22 @@ class SimGateway:
         self.to_client(DeviceConfigurationAck(body.communication_channel_id, body.sequence_counter), NET_DELAY, tr)
 
     # -- server initiated ---------------------------------------------------
-    def server_tunnelling_request(self, raw_cemi: bytes, seq: int | None = None, channel: int | None = None, delay: float = NET_DELAY, advance: bool = True) -> None:
+    def server_tunnelling_request(self, raw_cemi: bytes, seq: int | None = None, channel: int | None = None, delay: float = NET_DELAY, advance: bool = True, **extra: Any) -> None:
         if seq is None:
             seq = self.server_seq
             if advance:
                 self.server_seq = (self.server_seq + 1) & 0xFF
         ch = channel if channel is not None else (self.channel or 0)
-        self.to_client(TunnellingRequest(ch, seq, raw_cemi), delay)
+        self.to_client(TunnellingRequest(ch, seq, raw_cemi), delay, **extra)
+
+    def server_devcfg_request(self, raw_cemi: bytes, seq: int | None = None, channel: int | None = None, delay: float = NET_DELAY, advance: bool = True, **extra: Any) -> None:
+        """Server-initiated DeviceConfigurationRequest (C23); same counter handling as server_tunnelling_request."""
+        if seq is None:
+            seq = self.server_seq
+            if advance:
+                self.server_seq = (self.server_seq + 1) & 0xFF
+        ch = channel if channel is not None else (self.channel or 0)
+        self.to_client(DeviceConfigurationRequest(ch, seq, raw_cemi), delay, **extra)
 
     def server_disconnect(self, channel: int | None = None, delay: float = NET_DELAY) -> None:
         ch = channel if channel is not None else (self.channel or 0)
